@@ -298,7 +298,9 @@ func r143(c *Ctx) {
 	for _, s := range c.errorSites() {
 		if s.fn == rbm {
 			n500++
-			c.ob(rule, "ResponseBufferMiddleware/send-error=>500", s.instr.Pos(), s.status == 500, true, "")
+			// (answered directly: the target's headers are already in the header map, and the error-page path renders a
+			// page over them - http.Error resets what it must; there is no embedded page for 500 either)
+			c.ob(rule, "ResponseBufferMiddleware/send-error=>500", s.instr.Pos(), s.status == 500 && s.via != "SetErrorResponse", true, "a response that cannot be sent is answered 500 by http.Error, not through the error-page machinery")
 		}
 	}
 	c.ob(rule, "ResponseBufferMiddleware/answers-500-on-overflow", rbm.Pos(), n500 >= 1, false, "")
@@ -946,10 +948,34 @@ func rStatusKept(c *Ctx, rule string) {
 	}
 	c.ob(rule, "WriteHeader/marks-header-written", wh.Pos(), n >= 1, true, "")
 	okSend := false
+	hijF := c.field("bufferedResponseWriter", "hijacked")
 	for _, cs := range callsIn(send) {
 		if cs.common().IsInvoke() && cs.common().Method.Name() == "WriteHeader" && len(cs.common().Args) == 1 && isLoadOfField(cs.common().Args[0], statusF) {
 			if on, _ := boolFacts(cs.instr, matchFieldLoad(hwF)); on {
-				okSend = true
+				// under nothing but: a header was written, not hijacked, not overflowed (the switch to unbuffered
+				// delivery goes through Send with bypass already set: the status must go out on that way too)
+				extra := 0
+				for _, ce := range dominatingConds(cs.instr.Block()) {
+					cond := ce.cond
+					for {
+						u, isNot := cond.(*ssa.UnOp)
+						if !isNot || u.Op != token.NOT {
+							break
+						}
+						cond = u.X
+					}
+					if f, _, isF := fieldLoad(cond); isF && (f == hwF || f == hijF) {
+						continue
+					}
+					if call, isCall := cond.(*ssa.Call); isCall && call.Call.StaticCallee() != nil && call.Call.StaticCallee().Name() == "Overflowed" {
+						continue
+					}
+					if _, isPhi := cond.(*ssa.Phi); isPhi {
+						continue
+					}
+					extra++
+				}
+				okSend = extra == 0
 			}
 		}
 	}
